@@ -200,3 +200,33 @@ def stabilizers_property(run, repo, rel, rule='R13.active'):
     ok = len(rets) == 1 and isinstance(rets[0], ast.Subscript) and norm(rets[0].value) == 'self' and isinstance(rets[0].slice, ast.Slice) \
         and norm(rets[0].slice.lower) == 'self.r' and norm(rets[0].slice.upper) == 'self.N' and rets[0].slice.step is None
     run.check(ok, rule, f, rets[0] if rets else 'stabilizers', 'the active stabilizers are the rows [self.r : self.N] of the tableau')
+
+
+def own_rank_bounds(run, repo, rel, rule='R13.ownrank'):
+    """Rows of a tableau are selected by that tableau's own rank: a slice X.gs[..] / X.ps[..] / X[..] whose bounds mention Y.r for
+    another object Y selects the wrong rows whenever the two ranks differ (a pure observable state measured on a mixed state).
+    Bounds held in locals are not judged here (the callers' R13 rules read those); `.N` is not judged (equal by precondition)."""
+    import ast
+    from ..model import norm
+    n = 0
+    cls = repo.cls(rel.split('/')[0], 'StabilizerState')
+    for name, m in sorted(cls.methods.items()):
+        for nd in ast.walk(m.node):
+            if not (isinstance(nd, ast.Subscript) and isinstance(nd.slice, ast.Slice)):
+                continue
+            base = nd.value
+            if isinstance(base, ast.Attribute) and base.attr in ('gs', 'ps') and isinstance(base.value, ast.Name):
+                owner = base.value.id
+            elif isinstance(base, ast.Name):
+                owner = base.id
+            else:
+                continue
+            ranks = {x.value.id for b in (nd.slice.lower, nd.slice.upper) if b is not None for x in ast.walk(b)
+                     if isinstance(x, ast.Attribute) and x.attr == 'r' and isinstance(x.value, ast.Name)}
+            if not ranks:
+                continue
+            n += 1
+            other = sorted(ranks - {owner})
+            run.check(not other, rule, m, nd, 'rows of `%s` are selected with the rank of `%s`: the active rows of a tableau are [r, N) for its own r '
+                      '(the two ranks differ when a pure state is measured on a mixed one)' % (owner, ', '.join(other)))
+    return n
